@@ -360,6 +360,7 @@ func (w *streamWorld) final() {
 	for _, l := range w.t.Leaks() {
 		w.bad("final: " + l)
 	}
+	w.checkPublished()
 	if w.closed {
 		return
 	}
